@@ -1673,12 +1673,19 @@ class CodeGenerator(NodeVisitor):
         val = node.as_const(frame.eval_ctx)
         if isinstance(val, float):
             if math.isfinite(val):
-                self.write(str(val))
+                code = str(val)
             else:
                 # inf and nan have no literal syntax
-                self.write(f"float({str(val)!r})")
+                code = f"float({str(val)!r})"
         else:
-            self.write(repr(val))
+            code = repr(val)
+
+        # A folded negative number must not bind to a following operator
+        # differently than the expression it replaces, "(-2) ** x".
+        if code.startswith("-"):
+            code = f"({code})"
+
+        self.write(code)
 
     def visit_TemplateData(self, node: nodes.TemplateData, frame: Frame) -> None:
         try:
